@@ -50,7 +50,7 @@ Definition s_event (e : event) : sexp :=
 Definition s_outcome (o : outcome) : sexp :=
   SN (match o with OOk => 0 | OReadTimeout => 1 | OValueError => 2 | OStateError => 3 end)%N.
 
-Fixpoint run_reqs (pool : timeout) (objs : list (option timeout)) (reqs : list reqspec)
+Fixpoint run_reqs (tunnel : bool) (pool : timeout) (objs : list (option timeout)) (reqs : list reqspec)
          (have_conn : bool) (now : Q) : list sexp :=
   match reqs with
   | [] => []
@@ -68,16 +68,14 @@ Fixpoint run_reqs (pool : timeout) (objs : list (option timeout)) (reqs : list r
       | None => [s_bad_case]
       | Some rq =>
           let fresh := negb have_conn in
-          let '(evs, out, now') := make_request None pool rq fresh (rq_d r) now in
+          let '(evs, out, now') := (if tunnel then tunnelled_request else make_request) None pool rq fresh (rq_d r) now in
           let have' := match out with OOk => negb (rq_close r) | OValueError => have_conn | _ => false end in
-          SL [s_list s_event evs; s_outcome out] :: run_reqs pool objs rest have' now'
+          SL [s_list s_event evs; s_outcome out] :: run_reqs tunnel pool objs rest have' now'
       end
   end.
 
 (* case: (poolkind poolarg objs reqs): poolkind 0 = Timeout(total,connect,read), 1 = raw number/None/default *)
-Definition run (c : sexp) : sexp :=
-  match c with
-  | SL [SN pk; parg; objs; reqs] =>
+Definition run_with (tunnel : bool) (pk : N) (parg objs reqs : sexp) : sexp :=
       let pool : option (option timeout) :=
         match pk with
         | 0%N => option_map (fun '(a, b, c) => mk a b c) (as_triple parg)
@@ -89,9 +87,15 @@ Definition run (c : sexp) : sexp :=
           let built_ok := s_list (fun o => s_bool (match o with Some _ => true | None => false end)) built in
           match pool with
           | None => SL [SN 0; built_ok]                          (* ValueError building the pool's Timeout *)
-          | Some p => SL [SN 1; built_ok; SL (run_reqs p built reqs false 1000)]
+          | Some p => SL [SN 1; built_ok; SL (run_reqs tunnel p built reqs false 1000)]
           end
       | _, _, _ => s_bad_case
-      end
+      end.
+
+(* case: (poolkind poolarg objs reqs) for a plain-HTTP pool, (poolkind poolarg objs reqs 1) through a CONNECT tunnel *)
+Definition run (c : sexp) : sexp :=
+  match c with
+  | SL [SN pk; parg; objs; reqs] => run_with false pk parg objs reqs
+  | SL [SN pk; parg; objs; reqs; SN 1] => run_with true pk parg objs reqs
   | _ => s_bad_case
   end.
